@@ -463,6 +463,21 @@ func (p *TextLayoutPango) Metrics() *LineMetrics { return p.metrics }
 func (p *TextLayoutPango) Justification() pr.Float           { return pr.Float(p.justificationSpacing) }
 func (p *TextLayoutPango) SetJustification(spacing pr.Float) { p.justificationSpacing = pr.Fl(spacing) }
 
+// trimSingletonSubtags removes the one-letter subtags ending a language tag
+// ("fr-x", "fr-ca-x", "x"): such a tag is malformed (a singleton introduces
+// an extension and must be followed by a subtag), and the conversion to
+// OpenType language tags done when shaping reads past its end.
+func trimSingletonSubtags(lang pango.Language) pango.Language {
+	s := string(lang)
+	for len(s) >= 2 && s[len(s)-2] == '-' {
+		s = s[:len(s)-2]
+	}
+	if len(s) == 1 {
+		return ""
+	}
+	return pango.Language(s)
+}
+
 func (p *TextLayoutPango) setup(fonts FontConfiguration, style *TextStyle) {
 	p.fonts = fonts
 	p.Style = style
@@ -473,8 +488,8 @@ func (p *TextLayoutPango) setup(fonts FontConfiguration, style *TextStyle) {
 	var lang pango.Language
 	if flo := style.FontLanguageOverride; (flo != fontLanguageOverride{}) {
 		lang = language.NewLanguage(lstToISO[flo])
-	} else if lg := style.Lang; lg != "" {
-		lang = language.NewLanguage(lg)
+	} else if lg := trimSingletonSubtags(language.NewLanguage(style.Lang)); lg != "" {
+		lang = lg
 	} else {
 		lang = pango.DefaultLanguage()
 	}
